@@ -1,5 +1,11 @@
 package main
 
+import (
+	"fmt"
+	"sort"
+	"strings"
+)
+
 // The reference oracle, written from the property statement:
 //
 //	"group by group, the manifest's compute resources, replica counts and endpoint counts equal
@@ -7,22 +13,47 @@ package main
 //	 whose per-group totals are equal, however the tenant split or ordered its services."
 //
 // i.e. the manifest names exactly the on-chain groups (each once) and, per group,
-//   - for every class of resource unit (cpu, memory, storage, attributes all equal) the total
-//     number of replicas is the same on both sides, and
+//   - for every class of resource unit (cpu, memory, storage quantities equal, and the attribute
+//     lists of cpu, memory and storage equal AS MULTISETS: same entries, same multiplicities) the
+//     total number of replicas is the same on both sides, and
 //   - the number of endpoints served by the shared HTTP ingress and the number of endpoints that
 //     need a port of their own are the same on both sides.
 
+// Attribute order. "Equal exactly" does not make the order of an attribute list meaningful, so the
+// reference notion of a unit class is order-free (classKey(u, false)). The unchanged tree compares
+// attribute lists position by position (generated Equal of types.CPU / Memory / Storage), i.e. it
+// also distinguishes two units that differ only in the order of an attribute list
+// (classKey(u, true)). Both totals are kept: when they give the same verdict the real comparison
+// has to agree in both directions; when they differ (the ONLY difference between the two sides is
+// the order inside attribute lists) either real verdict is tolerated and counted
+// (attribute_order_only/*), not flagged -- reported to the coordinator instead.
+func classKey(u Unit, ordered bool) string {
+	l := func(kv []KV) string {
+		var parts []string
+		for _, a := range kv {
+			parts = append(parts, fmt.Sprintf("%q=%q", a.K, a.V))
+		}
+		if !ordered {
+			sort.Strings(parts)
+		}
+		return "[" + strings.Join(parts, ",") + "]"
+	}
+	return fmt.Sprintf("%d%s/%d%s/%d%s", u.CPU, l(u.CPUAttrs), u.Mem, l(u.MemAttrs), u.Sto, l(u.StoAttrs))
+}
+
 type totals struct {
-	replicas map[Unit]uint64
+	replicas map[string]uint64 // order-free unit class -> replicas
+	ordered  map[string]uint64 // position-wise unit class -> replicas
 	shared   int
 	random   int
 	sum      uint64
 }
 
 func dTotals(g DGroup) totals {
-	t := totals{replicas: map[Unit]uint64{}}
+	t := totals{replicas: map[string]uint64{}, ordered: map[string]uint64{}}
 	for _, e := range g.Entries {
-		t.replicas[unitAlphabet[e.Unit]] += uint64(e.Count)
+		t.replicas[classKey(unitAlphabet[e.Unit], false)] += uint64(e.Count)
+		t.ordered[classKey(unitAlphabet[e.Unit], true)] += uint64(e.Count)
 		t.sum += uint64(e.Count)
 		for _, k := range e.Endpoints {
 			if k == kindShared {
@@ -53,9 +84,10 @@ func endpointKindOf(x ExposeDef) (kind int, any bool) {
 }
 
 func mTotals(g MGroup) totals {
-	t := totals{replicas: map[Unit]uint64{}}
+	t := totals{replicas: map[string]uint64{}, ordered: map[string]uint64{}}
 	for _, s := range g.Services {
-		t.replicas[unitAlphabet[s.Unit]] += uint64(s.Count)
+		t.replicas[classKey(unitAlphabet[s.Unit], false)] += uint64(s.Count)
+		t.ordered[classKey(unitAlphabet[s.Unit], true)] += uint64(s.Count)
 		t.sum += uint64(s.Count)
 		for _, x := range s.Expose {
 			if k, ok := endpointKindOf(exposeAlphabet[x]); ok {
@@ -103,6 +135,24 @@ func oracleCross(ds []DGroup, ms []MGroup) bool {
 		}
 	}
 	return true
+}
+
+// orderOnly: the order-free oracle accepts the pair, the position-wise one does not (single-group
+// pairs): the two sides differ only in the order inside attribute lists.
+func orderOnly(d DGroup, m MGroup) bool {
+	a, b := dTotals(d), mTotals(m)
+	if !a.equal(b) {
+		return false
+	}
+	if len(a.ordered) != len(b.ordered) {
+		return true
+	}
+	for k, n := range a.ordered {
+		if b.ordered[k] != n {
+			return true
+		}
+	}
+	return false
 }
 
 func distinctNames(ms []MGroup) bool {
